@@ -42,7 +42,9 @@ TRUSTED_EXTRA = (
     "C11: h5py/HDF5 store and return datasets faithfully (the raw tree is read back through h5py)",
     "C11: the pending buffer is keyed by a 64-bit hash of the point; theorems assume it injective on the points of a run (collision case stated separately in Props/C11.lean)",
     "C11: text format number printing (%.16g) and numpy.genfromtxt parsing are not modelled (oracle compares at 16 significant digits)",
-    "C11: optimization-problem and HDF5-cache round trips are checked by the oracle only (no Lean model)",
+    "C11: of an optimization problem the Lean model covers the attribute groups (description, function descriptions, flat solution fields) and the statement order of from_hdf; the mapping fields of the solution, the database/design space inside the problem file and append-mode rewrites are checked by the oracle only",
+    "C11: of an HDF5 cache the Lean model covers the CSR layout of a sparse Jacobian block (SciPy's tocsr() is assumed to return the canonical CSR form of the matrix held by the container); hashing, entry indices and dense datasets are checked by the oracle only (C05 owns cache transparency)",
+    "C11: strings written to HDF5 are ASCII (store_attr_h5data encodes with errors='ignore')",
 )
 
 _TMP_ROOT: str | None = None
@@ -1529,7 +1531,13 @@ def run(ctx) -> Result:
         "numpy scalar, 0-d/size-1/vector/matrix/empty/int arrays, lists, empty entries, int/float/mixed points, root/nested node, "
         "direct exports or store/new-iteration listeners, fresh and append exports, restarts from the file); non-trivial = >= 2 stores and >= 2 exports, "
         "distinct by protocol lines. ds: random design spaces (1-5 variables, sizes 1-4, float/integer, infinite bounds, missing "
-        "values, multi-character names), non-trivial = >= 2 variables."
+        "values, multi-character names), non-trivial = >= 2 variables. pbd: problems built from a generated specification of every "
+        "written attribute (1-3 design variables with 1- and multi-character names; per function 0-3 input and output names of 1 and "
+        "several characters, dim, expr, special_repr; linear problems with MDOLinearFunction objective/constraints; maximization; "
+        "differentiation method/step; tolerances incl. 0; solution given field by field incl. 0, 0.0, False, None, or computed from "
+        "the problem), non-trivial = >= 1 constraint or observable. jac: HDF5Cache files with dense/CSR/CSC/COO/LIL/DOK/DIA/BSR "
+        "Jacobian blocks (array and matrix flavours), square non-symmetric and rectangular, 1-11 entries, 1-2 nodes, reloaded by a new "
+        "HDF5Cache on the same file and node, non-trivial = >= 2 blocks."
     )
     res.assumptions = [
         "in-scope histories never overwrite an output already present in the file with a different value (append mode does not propagate overwrites by design); such histories are probed against the model only",
@@ -1570,8 +1578,15 @@ def run(ctx) -> Result:
     check_ds_cases(res, [gen_ds_case(rng, exact=False) for _ in range(n_ds // 4)])
     check_pb_cases(res, [gen_pb_case(rng) for _ in range(400 if ctx.thorough else 60)])
     check_cache_cases(res, [gen_cache_case(rng) for _ in range(400 if ctx.thorough else 60)])
-    c11_ext.check_pbd_cases(res, [c11_ext.gen_pbd_case(rng) for _ in range(1500 if ctx.thorough else 220)])
-    c11_ext.check_jac_cases(res, [c11_ext.gen_jac_case(rng) for _ in range(1000 if ctx.thorough else 150)])
+    # second-generation streams (harness/c11_ext.py), compared with the model line by line
+    for label, gen, chk, n in (("pbd", c11_ext.gen_pbd_case, c11_ext.check_pbd_cases, 1500 if ctx.thorough else 160),
+                               ("jac", c11_ext.gen_jac_case, c11_ext.check_jac_cases, 600 if ctx.thorough else 60)):
+        cases = [gen(rng) for _ in range(n)]  # all drawn first: the streams do not depend on the deadline
+        for k in range(0, n, 40):
+            if not time_left(ctx):
+                res.notes.append(f"{label} stream stopped after {k} of {n} cases (deadline)")
+                break
+            chk(res, cases[k : k + 40])
     return res
 
 
